@@ -68,7 +68,7 @@ Bad(r) ==
       den  == Den(st)
       req  == KeysOf(r.req)
       need == Cull(st, req)
-  IN Clause("DN", ValuesOK(st, den, r.base) /\ KeysOf(r.base) = AllKeys(st))
+  IN Clause("DN", ValuesOK(st, den, r.base) /\ Cardinality(KeysOf(r.base)) = NumKeys(st))
      \cup UNION {PipeBad(st, den, req, need, r.pipes[i]) : i \in DOMAIN r.pipes}
      \cup Clause("LD", \A i \in DOMAIN r.lcull : LCullOK(st, r.lcull[i]))
      \cup Clause("FA", \A i \in DOMAIN r.fused : FusedOK(st, r.fused[i]))
